@@ -176,4 +176,80 @@ pub fn vf_max_range_duration<F: Fn(usize) -> Duration>(a: usize, b: usize, f: F,
     acc
 }
 
+/// index-based sums (element types with lifetimes cannot appear in spec_fn types)
+pub open spec fn sum_idx(n: int, g: spec_fn(int) -> int) -> int decreases n { if n <= 0 { 0 } else { sum_idx(n - 1, g) + g(n - 1) } }
+pub proof fn lemma_sum_idx_mono(n: int, g1: spec_fn(int) -> int, g2: spec_fn(int) -> int)
+    requires forall |i: int| 0 <= i < n ==> 0 <= #[trigger] g1(i) <= g2(i)
+    ensures 0 <= sum_idx(n, g1) <= sum_idx(n, g2)
+    decreases n
+{ if n > 0 { lemma_sum_idx_mono(n - 1, g1, g2); } }
+pub proof fn lemma_sum_idx_ext(n: int, g1: spec_fn(int) -> int, g2: spec_fn(int) -> int)
+    requires forall |i: int| 0 <= i < n ==> #[trigger] g1(i) == g2(i)
+    ensures sum_idx(n, g1) == sum_idx(n, g2)
+    decreases n
+{ if n > 0 { lemma_sum_idx_ext(n - 1, g1, g2); } }
+pub proof fn lemma_sum_idx_prefix(n: int, m: int, g: spec_fn(int) -> int)
+    requires 0 <= m <= n, forall |i: int| 0 <= i < n ==> #[trigger] g(i) >= 0
+    ensures 0 <= sum_idx(m, g) <= sum_idx(n, g)
+    decreases n
+{ if n > m { lemma_sum_idx_prefix(n - 1, m, g); } else { lemma_sum_idx_mono(m, |i: int| 0int, g); lemma_sum_idx_zero(m); } }
+pub proof fn lemma_sum_idx_zero(n: int)
+    ensures sum_idx(n, |i: int| 0int) == 0
+    decreases n
+{ if n > 0 { lemma_sum_idx_zero(n - 1); } }
+/// R1: `xs.iter().map(f).sum()` with Service items, summand described by index
+pub fn vf_sum_service_idx<T, F: Fn(&T) -> Service>(xs: &[T], f: F, Ghost(g): Ghost<spec_fn(int) -> int>) -> (r: Service)
+    requires
+        forall |i: int| 0 <= i < xs@.len() ==> #[trigger] f.requires((&xs@[i],)),
+        forall |i: int, v: Service| 0 <= i < xs@.len() && #[trigger] f.ensures((&xs@[i],), v) ==> v.v() == g(i),
+        forall |i: int| 0 <= i < xs@.len() ==> #[trigger] g(i) >= 0,
+        sum_idx(xs@.len() as int, g) <= u64::MAX,
+    ensures r.v() == sum_idx(xs@.len() as int, g)
+{
+    let mut acc: Service = Service::none();
+    let mut i: usize = 0;
+    while i < xs.len()
+        invariant
+            i <= xs@.len(), acc.v() == sum_idx(i as int, g),
+            forall |i: int| 0 <= i < xs@.len() ==> #[trigger] f.requires((&xs@[i],)),
+            forall |i: int, v: Service| 0 <= i < xs@.len() && #[trigger] f.ensures((&xs@[i],), v) ==> v.v() == g(i),
+            forall |i: int| 0 <= i < xs@.len() ==> #[trigger] g(i) >= 0,
+            sum_idx(xs@.len() as int, g) <= u64::MAX,
+        decreases xs@.len() - i
+    {
+        let v = f(&xs[i]);
+        proof { assert(f.ensures((&xs@[i as int],), v)); lemma_sum_idx_prefix(xs@.len() as int, i as int + 1, g); }
+        acc = acc + v;
+        i = i + 1;
+    }
+    acc
+}
+/// R1: the same with usize items
+pub fn vf_sum_usize_idx<T, F: Fn(&T) -> usize>(xs: &[T], f: F, Ghost(g): Ghost<spec_fn(int) -> int>) -> (r: usize)
+    requires
+        forall |i: int| 0 <= i < xs@.len() ==> #[trigger] f.requires((&xs@[i],)),
+        forall |i: int, v: usize| 0 <= i < xs@.len() && #[trigger] f.ensures((&xs@[i],), v) ==> v == g(i),
+        forall |i: int| 0 <= i < xs@.len() ==> #[trigger] g(i) >= 0,
+        sum_idx(xs@.len() as int, g) <= usize::MAX,
+    ensures r == sum_idx(xs@.len() as int, g)
+{
+    let mut acc: usize = 0;
+    let mut i: usize = 0;
+    while i < xs.len()
+        invariant
+            i <= xs@.len(), acc == sum_idx(i as int, g),
+            forall |i: int| 0 <= i < xs@.len() ==> #[trigger] f.requires((&xs@[i],)),
+            forall |i: int, v: usize| 0 <= i < xs@.len() && #[trigger] f.ensures((&xs@[i],), v) ==> v == g(i),
+            forall |i: int| 0 <= i < xs@.len() ==> #[trigger] g(i) >= 0,
+            sum_idx(xs@.len() as int, g) <= usize::MAX,
+        decreases xs@.len() - i
+    {
+        let v = f(&xs[i]);
+        proof { assert(f.ensures((&xs@[i as int],), v)); lemma_sum_idx_prefix(xs@.len() as int, i as int + 1, g); }
+        acc = acc + v;
+        i = i + 1;
+    }
+    acc
+}
+
 } // verus!
